@@ -11,15 +11,16 @@ returns `(h', g)`, `A` is the abstraction of `h` and `A'` an abstraction of `h'`
 -/
 namespace Sql.BK
 
-variable {tt : Nat → TType} {h h' : Heap} {rank : Nat → Nat} {T : Nat → Text} {A A' : Nat → Node} {self g : Nat}
+variable {h h' : Heap} {rank : Nat → Nat} {T : Nat → Text} {A A' : Nat → Node} {self g : Nat}
 
 /-- what both branches of `group_tokens` leave alone -/
 def Same (h h' : Heap) (self g : Nat) : Prop :=
   ∀ j, j ≠ self → j ≠ g →
-    (h'.obj j).kids = (h.obj j).kids ∧ (h'.obj j).cls = (h.obj j).cls ∧ (h'.obj j).value = (h.obj j).value
+    (h'.obj j).kids = (h.obj j).kids ∧ (h'.obj j).cls = (h.obj j).cls ∧ (h'.obj j).value = (h.obj j).value ∧
+      (h'.obj j).ttype = (h.obj j).ttype
 
 /-- frame: objects from which `self` cannot be reached keep their tree -/
-theorem frame_gen (hinv : Inv h rank T) (hA : IsAbs tt h A) (hA' : IsAbs tt h' A') (hsame : Same h h' self g)
+theorem frame_gen (hinv : Inv0 h rank T) (hA : IsAbs h A) (hA' : IsAbs h' A') (hsame : Same h h' self g)
     (hg : ∀ i ks, (h.obj i).kids = some ks → g ∈ ks → i = self) :
     ∀ (n j : Nat), rank j < n → j ≠ g → ¬ Reach h j self → A' j = A j := by
   intro n
@@ -28,10 +29,10 @@ theorem frame_gen (hinv : Inv h rank T) (hA : IsAbs tt h A) (hA' : IsAbs tt h' A
   | succ n ih =>
     intro j hj hjg hnr
     have hjs : j ≠ self := by intro he; exact hnr (he ▸ Reach.refl h _)
-    obtain ⟨e1, e2, e3⟩ := hsame j hjs hjg
+    obtain ⟨e1, e2, e3, e4⟩ := hsame j hjs hjg
     cases hk : (h.obj j).kids with
     | none =>
-      rw [hA.leaf j hk, hA'.leaf j (by rw [e1]; exact hk), e3]
+      rw [hA.leaf j hk, hA'.leaf j (by rw [e1]; exact hk), e3, e4]
     | some ks =>
       rw [hA.grp j ks hk, hA'.grp j ks (by rw [e1]; exact hk), e2]
       congr 1
@@ -45,7 +46,7 @@ theorem frame_gen (hinv : Inv h rank T) (hA : IsAbs tt h A) (hA' : IsAbs tt h' A
         exact hnr ((Reach.child hk hkm).trans hr')
 
 /-- path: the tree of an ancestor changes exactly at the path to `self` -/
-theorem path_gen (hinv : Inv h rank T) (hA : IsAbs tt h A) (hA' : IsAbs tt h' A') (hsame : Same h h' self g)
+theorem path_gen (hinv : Inv0 h rank T) (hA : IsAbs h A) (hA' : IsAbs h' A') (hsame : Same h h' self g)
     (hg : ∀ i ks, (h.obj i).kids = some ks → g ∈ ks → i = self) (hgs : ¬ Reach h g self)
     (f : List Node → Except PyErr (List Node)) {c : Cls} {ks0 ks1 : List Node}
     (h0 : A self = .grp c ks0) (h1 : A' self = .grp c ks1) (hf : f ks0 = .ok ks1) :
@@ -66,7 +67,7 @@ theorem path_gen (hinv : Inv h rank T) (hA : IsAbs tt h A) (hA' : IsAbs tt h' A'
       simp only [List.length_cons] at hrk
       have hrs : r ≠ self := by intro he; rw [he] at hrk; omega
       have hrg : r ≠ g := by intro he; exact hgs (he ▸ ⟨_, IsPath.cons hk hi hp'⟩)
-      obtain ⟨e1, e2, _⟩ := hsame r hrs hrg
+      obtain ⟨e1, e2, _, _⟩ := hsame r hrs hrg
       rw [hA.grp r ks hk, hA'.grp r ks (by rw [e1]; exact hk), e2]
       have hik : (ks.map A)[i]? = some (A k) := by rw [List.getElem?_map, hi]; rfl
       simp only [Node.updAt, hik, ih k hp']
@@ -97,7 +98,7 @@ theorem pySlice_map {α β : Type} (f : α → β) (l : List α) (a b : Nat) : p
   simp only [pySlice, List.map_take, List.map_drop]
 
 /-- the children of `self` keep their trees, except `g` -/
-theorem kids_frame (hinv : Inv h rank T) (hA : IsAbs tt h A) (hA' : IsAbs tt h' A') (hsame : Same h h' self g)
+theorem kids_frame (hinv : Inv0 h rank T) (hA : IsAbs h A) (hA' : IsAbs h' A') (hsame : Same h h' self g)
     (hg : ∀ i ks, (h.obj i).kids = some ks → g ∈ ks → i = self) {j : Nat} (hj : rank j < rank self) (hjg : j ≠ g) :
     A' j = A j := by
   apply frame_gen hinv hA hA' hsame hg (rank j + 1) j (by omega) hjg
@@ -106,7 +107,7 @@ theorem kids_frame (hinv : Inv h rank T) (hA : IsAbs tt h A) (hA' : IsAbs tt h' 
   omega
 
 /-- the result of one call, in terms of the abstraction -/
-structure StepAbs (tt : Nat → TType) (h h' : Heap) (A A' : Nat → Node) (self g : Nat) (cls : Cls) (a b : Nat) (ie ext : Bool) :
+structure StepAbs (h h' : Heap) (A A' : Nat → Node) (self g : Nat) (cls : Cls) (a b : Nat) (ie ext : Bool) :
     Prop where
   /-- the pure call on the children of `self` -/
   call : ∃ c ks0 ks1 grp, A self = .grp c ks0 ∧ Sql.groupTokens' ks0 cls a b ie ext = .ok (ks1, grp) ∧
@@ -115,23 +116,23 @@ structure StepAbs (tt : Nat → TType) (h h' : Heap) (A A' : Nat → Node) (self
   frame : ∀ j, j ≠ g → ¬ Reach h j self → A' j = A j
   /-- path -/
   path : ∀ r p, IsPath h r p self →
-    Node.updAt (fun ks => Sql.groupTokens ks cls a b ie ext) p (A r) = .ok (A' r)
+    Node.updAt (POp.group cls a b ie ext).run p (A r) = .ok (A' r)
 
-theorem stepAbs_of (hinv : Inv h rank T) (hA : IsAbs tt h A) (hA' : IsAbs tt h' A') (hsame : Same h h' self g)
+theorem stepAbs_of (hinv : Inv0 h rank T) (hA : IsAbs h A) (hA' : IsAbs h' A') (hsame : Same h h' self g)
     (hg : ∀ i ks, (h.obj i).kids = some ks → g ∈ ks → i = self) (hgs : ¬ Reach h g self)
     {cls : Cls} {a b : Nat} {ie ext : Bool} {c : Cls} {ks0 ks1 : List Node} {grp : Node}
     (h0 : A self = .grp c ks0) (hp : Sql.groupTokens' ks0 cls a b ie ext = .ok (ks1, grp))
-    (h1 : A' self = .grp c ks1) (h2 : A' g = grp) : StepAbs tt h h' A A' self g cls a b ie ext := by
+    (h1 : A' self = .grp c ks1) (h2 : A' g = grp) : StepAbs h h' A A' self g cls a b ie ext := by
   refine ⟨⟨c, ks0, ks1, grp, h0, hp, h1, h2⟩, ?_, ?_⟩
   · intro j hjg hnr
     exact frame_gen hinv hA hA' hsame hg (rank j + 1) j (by omega) hjg hnr
   · intro r p hpath
-    exact path_gen hinv hA hA' hsame hg hgs _ h0 h1 (by simp only [Sql.groupTokens, hp]) p r hpath
+    exact path_gen hinv hA hA' hsame hg hgs _ h0 h1 (by simp only [POp.run, Sql.groupTokens, hp]) p r hpath
 
 /-- **one call of `group_tokens` on the heap is the pure `groupTokens` at the path of `self`** -/
-theorem groupTokens_abs (str : Heap → Nat → Text) (hinv : Inv h rank T) {cls : Cls} {a b : Nat} {ie ext : Bool}
-    (hcall : groupTokens str h self cls a b ie ext = .ok (h', g)) (hA : IsAbs tt h A) (hA' : IsAbs tt h' A') :
-    StepAbs tt h h' A A' self g cls a b ie ext := by
+theorem groupTokens_abs (str : Heap → Nat → Text) (hinv : Inv0 h rank T) {cls : Cls} {a b : Nat} {ie ext : Bool}
+    (hcall : groupTokens str h self cls a b ie ext = .ok (h', g)) (hA : IsAbs h A) (hA' : IsAbs h' A') :
+    StepAbs h h' A A' self g cls a b ie ext := by
   cases hk : (h.obj self).kids with
   | none => simp [groupTokens, hk] at hcall
   | some ks =>
@@ -335,8 +336,8 @@ theorem groupTokens_abs (str : Heap → Nat → Text) (hinv : Inv h rank T) {cls
 
 /-- a call that raises on the heap raises the same exception in the pure model -/
 theorem groupTokens_abs_error (str : Heap → Nat → Text) {cls : Cls} {a b : Nat} {ie ext : Bool} {e : PyErr}
-    (hcall : groupTokens str h self cls a b ie ext = .error e) (hA : IsAbs tt h A) :
-    Node.updAt (fun ks => Sql.groupTokens ks cls a b ie ext) [] (A self) = .error e := by
+    (hcall : groupTokens str h self cls a b ie ext = .error e) (hA : IsAbs h A) :
+    Node.updAt (POp.group cls a b ie ext).run [] (A self) = .error e := by
   cases hk : (h.obj self).kids with
   | none =>
     simp only [groupTokens, hk] at hcall
@@ -352,9 +353,137 @@ theorem groupTokens_abs_error (str : Heap → Nat → Text) {cls : Cls} {a b : N
       subst hcall
       rw [hA.grp self ks hk]
       have : (ks.map A)[a]? = none := by rw [List.getElem?_map, hst]; rfl
-      simp only [Node.updAt, Sql.groupTokens, Sql.groupTokens', this]
+      simp only [Node.updAt, POp.run, Sql.groupTokens, Sql.groupTokens', this]
     | some st =>
       simp only [groupTokens, hk, hst] at hcall
       split at hcall <;> cases hcall
+
+end Sql.BK
+
+/-! ## `ttype` assignments, and both kinds of operation together -/
+
+namespace Sql.BK
+
+variable {h h' : Heap} {rank : Nat → Nat} {T : Nat → Text} {A A' : Nat → Node} {self g : Nat}
+
+/-- the object whose child list a heap operation addresses -/
+def HOp.target : HOp → Nat
+  | .group op => op.self
+  | .setType s _ _ => s
+
+/-- the pure operation a heap operation stands for -/
+def HOp.toPure : HOp → POp
+  | .group op => .group op.cls op.start op.stop op.includeEnd op.extend
+  | .setType _ idx tt => .setType idx tt
+
+/-- **`tlist[idx].ttype = tt` on the heap is the pure assignment at the path of `tlist`** -/
+theorem setTType_abs (hinv : Inv0 h rank T) {idx x : Nat} {tt : TType} (hcall : h.setTType self idx tt = .ok (h', x))
+    (hA : IsAbs h A) (hA' : IsAbs h' A') :
+    (∃ c ks0 ks1, A self = .grp c ks0 ∧ (POp.setType idx tt).run ks0 = .ok ks1 ∧ A' self = .grp c ks1) ∧
+    (∀ j, j ≠ x → ¬ Reach h j self → A' j = A j) ∧
+    (∀ r p, IsPath h r p self → Node.updAt (POp.setType idx tt).run p (A r) = .ok (A' r)) := by
+  obtain ⟨_, ⟨ks, hk, hi⟩, htt, hall, hoth⟩ := setTType_same hcall
+  have hxMem : x ∈ ks := List.mem_of_getElem? hi
+  have hksRank : ∀ k ∈ ks, rank k < rank self := hinv.rk self ks hk
+  have hnd : ks.Nodup := hinv.nodup self ks hk
+  have hsame : Same h h' self x := fun j _ hjx => ⟨(hall j).2.1, (hall j).2.2.1, (hall j).2.2.2, hoth j hjx⟩
+  have hg : ∀ i ks', (h.obj i).kids = some ks' → x ∈ ks' → i = self := by
+    intro i ks' hki hm
+    have p1 := hinv.par i ks' hki x hm
+    have p2 := hinv.par self ks hk x hxMem
+    rw [p1] at p2
+    exact Option.some.inj p2
+  have hgs : ¬ Reach h x self := by
+    intro hr
+    have := hr.rank_le hinv
+    have := hksRank x hxMem
+    omega
+  have hkf : ∀ k, rank k < rank self → k ≠ x → A' k = A k := fun k hk1 hk2 => kids_frame hinv hA hA' hsame hg hk1 hk2
+  have hAself := hA.grp self ks hk
+  have hx : A' x = (A x).setTType tt := by
+    cases hkx : (h.obj x).kids with
+    | none =>
+      rw [hA.leaf x hkx, hA'.leaf x (by rw [(hall x).2.1]; exact hkx), htt, (hall x).2.2.2]
+      rfl
+    | some kx =>
+      rw [hA.grp x kx hkx, hA'.grp x kx (by rw [(hall x).2.1]; exact hkx), (hall x).2.2.1]
+      simp only [Node.setTType]
+      congr 1
+      apply List.map_congr_left
+      intro k hm
+      have h1 := hinv.rk x kx hkx k hm
+      have h2 := hksRank x hxMem
+      exact hkf k (by omega) (by intro he; rw [he] at h1; exact Nat.lt_irrefl _ h1)
+  have hmap : ks.map A' = (ks.map A).set idx ((A x).setTType tt) := by
+    apply List.ext_getElem?
+    intro j
+    rw [List.getElem?_set, List.getElem?_map, List.getElem?_map]
+    by_cases hji : idx = j
+    · subst hji
+      have hlt : idx < (ks.map A).length := by
+        rw [List.length_map]; exact (List.getElem?_eq_some_iff.mp hi).1
+      simp only [if_true, hlt, hi, Option.map_some, hx]
+    · simp only [hji, if_false]
+      cases hj : ks[j]? with
+      | none => rfl
+      | some k' =>
+        simp only [Option.map_some]
+        congr 1
+        have hk'm : k' ∈ ks := List.mem_of_getElem? hj
+        apply hkf k' (hksRank k' hk'm)
+        intro he
+        subst he
+        exact hji (getElem?_inj_of_nodup hnd hi hj)
+  have hA'self : A' self = .grp (h.obj self).cls ((ks.map A).set idx ((A x).setTType tt)) := by
+    rw [hA'.grp self ks (by rw [(hall self).2.1]; exact hk), (hall self).2.2.1, hmap]
+  have hrun : (POp.setType idx tt).run (ks.map A) = .ok ((ks.map A).set idx ((A x).setTType tt)) := by
+    have : (ks.map A)[idx]? = some (A x) := by rw [List.getElem?_map, hi]; rfl
+    simp only [POp.run, this]
+  refine ⟨⟨_, _, _, hAself, hrun, hA'self⟩, ?_, ?_⟩
+  · intro j hjx hnr
+    exact frame_gen hinv hA hA' hsame hg (rank j + 1) j (by omega) hjx hnr
+  · intro r p hpath
+    exact path_gen hinv hA hA' hsame hg hgs _ hAself hA'self hrun p r hpath
+
+/-- **a heap operation is its pure operation at the path of the object it addresses** (frame + path) -/
+theorem HOp.run_abs (str : Heap → Nat → Text) (hinv : Inv0 h rank T) {op : HOp} (hcall : op.run str h = .ok (h', g))
+    (hA : IsAbs h A) (hA' : IsAbs h' A') :
+    (∀ j, j ≠ g → ¬ Reach h j op.target → A' j = A j) ∧
+    (∀ r p, IsPath h r p op.target → Node.updAt op.toPure.run p (A r) = .ok (A' r)) := by
+  cases op with
+  | group o =>
+    obtain ⟨_, hf, hp⟩ := groupTokens_abs str hinv hcall hA hA'
+    exact ⟨hf, hp⟩
+  | setType s idx tt =>
+    obtain ⟨_, hf, hp⟩ := setTType_abs hinv hcall hA hA'
+    exact ⟨hf, hp⟩
+
+/-- an operation that raises on the heap raises the same exception in the pure model -/
+theorem HOp.run_abs_error (str : Heap → Nat → Text) {op : HOp} {e : PyErr} (hcall : op.run str h = .error e) (hA : IsAbs h A) :
+    Node.updAt op.toPure.run [] (A op.target) = .error e ∨
+      (∃ s idx tt, op = .setType s idx tt ∧ (h.obj s).kids = none ∧ e = .typeError) := by
+  cases op with
+  | group o => exact Or.inl (groupTokens_abs_error str hcall hA)
+  | setType s idx tt =>
+    simp only [HOp.run, Heap.setTType] at hcall
+    cases hk : (h.obj s).kids with
+    | none =>
+      rw [hk] at hcall
+      injection hcall with hcall
+      exact Or.inr ⟨s, idx, tt, rfl, hk, hcall.symm⟩
+    | some ks =>
+      rw [hk] at hcall
+      simp only at hcall
+      cases hi : ks[idx]? with
+      | none =>
+        rw [hi] at hcall
+        injection hcall with hcall
+        subst hcall
+        left
+        simp only [HOp.target, HOp.toPure]
+        rw [hA.grp s ks hk]
+        have : (ks.map A)[idx]? = none := by rw [List.getElem?_map, hi]; rfl
+        simp only [Node.updAt, POp.run, this]
+      | some x => rw [hi] at hcall; cases hcall
 
 end Sql.BK
